@@ -2,7 +2,7 @@
    Definitions only: the projections the property reads (stored and cached want / given /
    deleted per user, attached sessions), the justification predicates ("an authorised
    request"), the invariants, and a decomposition of thisUserSub / anotherUserSub into
-   named pieces (proved equal to the model's handlers by reflexivity in TopicAclProofs.v).
+   named pieces (proved equal to the model's handlers by reflexivity in TopicAclC07Proofs.v).
    Nothing in Sys/Topic.v is changed. *)
 From Coq Require Import ZArith NArith List Bool.
 From Tinode Require Import Base.Util Pure.Acs Sys.Topic.
